@@ -668,16 +668,19 @@ PPL::Polyhedron::contains_integer_point() const {
         PPL_ASSERT(c.is_inconsistent());
         return false;
       }
+      // Let `c' be `g*e + k > 0', where `g' is `homogeneous_gcd'.
+      // On integer points `e' is an integer, hence `c' is equivalent to
+      // `e + ceil(k/g) - 1 >= 0'.  Only the homogeneous part is exactly
+      // divisible by `g'.
       Linear_Expression le(c.expression());
+      le -= inhomogeneous;
       if (homogeneous_gcd != 1) {
         le /= homogeneous_gcd;
       }
-      // Further tighten the constraint if the inhomogeneous term
-      // was integer, i.e., if `homogeneous_gcd' divides `inhomogeneous'.
-      gcd_assign(gcd, homogeneous_gcd, inhomogeneous);
-      if (gcd == homogeneous_gcd) {
-        le -= 1;
-      }
+      div_assign_r(tightened_inhomogeneous,
+                   inhomogeneous, homogeneous_gcd, ROUND_UP);
+      --tightened_inhomogeneous;
+      le += tightened_inhomogeneous;
       mip.add_constraint(le >= 0);
     }
     else {
